@@ -149,7 +149,7 @@ Section disc.
       assert (∀ S', (∀ h l, h ∈ ef (st_now s1) (t_holds t2) → st_sessions s1 !! h_sid h = Some l → hold_clock h ∈ l →
                        ∃ l', S' !! h_sid h = Some l' ∧ hold_clock h ∈ l') →
                 LR (save cfg (s1 <| st_sessions := S' |>)) D t2) as Hframe.
-      { intros S' HS'. eapply (LR_frame s1); [exact HL2|by rewrite save_locks|by rewrite save_waiters|by rewrite save_now| |by rewrite save_timers].
+      { intros S' HS'. eapply (LR_frame s1); [exact HL2|by rewrite save_locks|by rewrite save_waiters|by rewrite save_now|by rewrite save_used| |by rewrite save_timers].
         rewrite save_sessions. exact HS'. }
       destruct (st_sessions s !! sid) as [locks|] eqn:Hs.
       2:{ injection Hds as <- <-. exists []. split_and!; try done; [|by intros c ?%elem_of_nil|constructor].
